@@ -185,7 +185,7 @@ pub enum Replay
     Table{ case : Case },
     /* C11: run the history; crash the last operation (the victim) at mutation `index`
        (torn: only that many bytes of the write applied); recover with `recovery` schedule */
-    Crash{ case : Case, index : u32, torn : Option<u32>, recovery : SchedSpec },
+    Crash{ case : Case, index : u32, torn : Option<u32>, second : Option<(u32, Option<u32>)>, recovery : SchedSpec },
     /* C16 */
     State{ kind : String, bytes : Vec<u8>, expect_reject : bool, read_chunk : u32 },
     StateRoundTrip{ kind : String, seed : u64 },
@@ -758,6 +758,9 @@ pub fn minimize_with_budget(case : &Case, test : &dyn Fn(&Case) -> bool, budget 
         let mut cand = best.clone();
         cand.rule_files = 1;
         try_candidate(cand, &mut best, &mut budget);
+        let mut cand = best.clone();
+        cand.rule_files = best.rule_files % 10;
+        try_candidate(cand, &mut best, &mut budget);
     }
 
     best
@@ -843,7 +846,7 @@ pub fn run_replay(r : &Replay) -> Vec<(String, String)>
         },
         Replay::Pair{ case, alt } => sched_engine::replay_pair(case, alt),
         Replay::Table{ case } => pair_engine::replay(case),
-        Replay::Crash{ case, index, torn, recovery } => crash_engine::replay(case, *index, *torn, recovery),
+        Replay::Crash{ case, index, torn, second, recovery } => crash_engine::replay(case, *index, *torn, *second, recovery),
         Replay::State{ kind, bytes, expect_reject, read_chunk } => state_engine::replay_bytes(kind, bytes, *expect_reject, *read_chunk),
         Replay::StateRoundTrip{ kind, seed } => state_engine::replay_round_trip(kind, *seed),
         Replay::Server{ case, requests } => server_engine::replay(case, requests),
